@@ -730,7 +730,7 @@ fn c04_strict_check(s: &[u8]) {
         }
         (Err(a), Err(b)) => assert!(a == b, "struct decoding and slicing refuse for different reasons"),
         _ => panic!("verdict differs between struct decoding and slicing"),
-    }
+    };
 }
 
 macro_rules! c04_slim {
@@ -762,3 +762,128 @@ c04_slim!(
 c04_slim!(
     /// C04 bounded, lax family (all inputs 1..=56 B, b[0] == 0x60, next header UDP)
     c04_lax_headers_vs_sliced_ip_v6_udp, c04_lax_check, 56, 4, |b| { b[0] = 0x60; b[6] = 17; });
+
+// ---------------------------------------------------------------------------------------------------------------------------
+// C05 at the link-extension level: whenever strict slicing from an ether type succeeds, lax slicing returns the same link
+// extensions (kind, header bytes, payload bytes) with no stop error and nothing marked incomplete.
+// ---------------------------------------------------------------------------------------------------------------------------
+
+fn sameslice(a: &[u8], b: &[u8]) -> bool {
+    a.as_ptr() == b.as_ptr() && a.len() == b.len()
+}
+
+fn c05_link_exts_check(et: EtherType, s: &[u8]) {
+    let strict = SlicedPacket::from_ether_type(et, s);
+    let lax = LaxSlicedPacket::from_ether_type(et, s);
+    if let Ok(p) = strict {
+        assert!(lax.stop_err.is_none(), "strict slicing succeeds but lax slicing reports a stop error");
+        assert!(lax.link_exts.len() == p.link_exts.len(), "lax slicing returns a different number of link extensions than strict slicing");
+        let mut i = 0;
+        while i < p.link_exts.len() {
+            match (&p.link_exts[i], &lax.link_exts[i]) {
+                (LinkExtSlice::Vlan(a), LaxLinkExtSlice::Vlan(b)) => {
+                    assert!(sameslice(a.slice(), b.slice()), "VLAN slice differs between strict and lax");
+                }
+                (LinkExtSlice::Macsec(a), LaxLinkExtSlice::Macsec(b)) => {
+                    assert!(sameslice(a.header.slice(), b.header.slice()), "MACsec header differs between strict and lax");
+                    match (&a.payload, &b.payload) {
+                        (MacsecPayloadSlice::Unmodified(x), LaxMacsecPayloadSlice::Unmodified(y)) => {
+                            assert!(sameslice(x.payload, y.payload) && x.ether_type == y.ether_type && !y.incomplete, "MACsec payload differs between strict and lax");
+                        }
+                        (MacsecPayloadSlice::Modified(x), LaxMacsecPayloadSlice::Modified { incomplete, payload }) => {
+                            assert!(sameslice(x, payload) && !*incomplete, "modified MACsec payload differs between strict and lax");
+                            kani::cover!(true);
+                        }
+                        _ => panic!("MACsec payload kind differs between strict and lax"),
+                    }
+                }
+                _ => panic!("link extension kind differs between strict and lax"),
+            }
+            i += 1;
+        }
+        kani::cover!(p.link_exts.len() == 2);
+    }
+    kani::cover!(lax.stop_err.is_some());
+}
+
+/// C05 bounded (all inputs <= 24 B behind ether type MACsec 0x88E5: SecTAG 6 or 14 bytes, then VLAN / unknown ether types)
+#[kani::proof]
+#[kani::unwind(5)]
+fn c05_link_exts_macsec() {
+    let b: [u8; 24] = kani::any();
+    let l: usize = kani::any();
+    kani::assume(l <= 24);
+    c05_link_exts_check(EtherType::MACSEC, &b[..l]);
+}
+
+/// C05 bounded (all inputs <= 16 B behind ether type VLAN 0x8100: up to three stacked tags, MACsec behind a tag)
+#[kani::proof]
+#[kani::unwind(5)]
+fn c05_link_exts_vlan() {
+    let b: [u8; 16] = kani::any();
+    let l: usize = kani::any();
+    kani::assume(l <= 16);
+    c05_link_exts_check(EtherType::VLAN_TAGGED_FRAME, &b[..l]);
+}
+
+/// C04/C07 bounded (all inputs <= 16 B behind ether type MACsec): `PacketHeaders::from_ether_type` and `SlicedPacket::from_ether_type`
+/// agree on the verdict, on the error value (layer, offset, lengths) and on the number of link extensions
+#[kani::proof]
+#[kani::unwind(5)]
+fn c04_slim_ether_type_macsec() {
+    let b: [u8; 16] = kani::any();
+    let l: usize = kani::any();
+    kani::assume(l <= 16);
+    let s = &b[..l];
+    let h = PacketHeaders::from_ether_type(EtherType::MACSEC, s);
+    let p = SlicedPacket::from_ether_type(EtherType::MACSEC, s);
+    match (h, p) {
+        (Ok(h), Ok(p)) => {
+            assert!(h.link_exts.len() == p.link_exts.len(), "number of link extensions differs between struct decoding and slicing");
+            kani::cover!(h.link_exts.len() == 2);
+        }
+        (Err(a), Err(b)) => {
+            assert!(a == b, "struct decoding and slicing report different errors behind a MACsec header");
+            kani::cover!(matches!(a, err::packet::SliceError::Len(err::LenError { layer: err::Layer::VlanHeader, .. })));
+        }
+        _ => panic!("verdict differs between struct decoding and slicing"),
+    };
+}
+
+/// C04/C05 (bounded: chains of <= 24 bytes, <= 3 headers): `Ipv6Extensions::from_slice_lax` returns the reference struct walk up to
+/// its first fault and that fault as stop error (bounded check of the contract Verus assumes for that function)
+#[kani::proof]
+#[kani::unwind(5)]
+fn p_ext_struct_walk_lax() {
+    let b: [u8; N] = kani::any();
+    let l: usize = kani::any();
+    kani::assume(l <= N);
+    let start: u8 = kani::any();
+    let s = &b[..l];
+    let w = ref_swalk(start, s, 4);
+    kani::assume(w.consumed != usize::MAX);
+    let (exts, next, rest, stop) = Ipv6Extensions::from_slice_lax(IpNumber(start), s);
+    assert!(next.0 == w.next, "lax struct walk: next header differs from the reference");
+    assert!(rest.len() == l - w.consumed && off(rest, s) == w.consumed, "lax struct walk: rest differs from the reference");
+    assert!(exts.is_fragmenting_payload() == w.frag, "lax struct walk: fragmentation flag differs from the reference");
+    match w.fault {
+        None => assert!(stop.is_none(), "lax struct walk: stop error where the reference has no fault"),
+        Some(RefFault::HopByHopNotAtStart) => assert!(matches!(
+            stop,
+            Some((err::ipv6_exts::HeaderSliceError::Content(err::ipv6_exts::HeaderError::HopByHopNotAtStart), _))
+        )),
+        Some(RefFault::AuthZeroPayloadLen) => assert!(matches!(
+            stop,
+            Some((err::ipv6_exts::HeaderSliceError::Content(err::ipv6_exts::HeaderError::IpAuth(err::ip_auth::HeaderError::ZeroPayloadLen)), _))
+        )),
+        Some(RefFault::Len { layer, required, len, offset }) => match &stop {
+            Some((err::ipv6_exts::HeaderSliceError::Len(e), _)) => {
+                assert!(e.layer == layer && e.required_len == required && e.len == len && e.layer_start_offset == offset && e.len_source == LenSource::Slice,
+                    "lax struct walk: length stop error differs from the reference");
+            }
+            _ => panic!("lax struct walk: expected a length stop error"),
+        },
+    }
+    kani::cover!(stop.is_some() && w.consumed == 8);
+    kani::cover!(w.consumed == 16);
+}
